@@ -353,7 +353,9 @@ def _open_call_token(
         sealed_plaintext: bytes = crypto.open_bytes(raw, token_key, aad=aad, version=_CALL_TOKEN_VERSION)
     except crypto.SealError as exc:
         raise _RpcHttpError(
-            RuntimeError("Call token signature verification failed"),
+            # The same text as for a cursor token: an authenticity failure does
+            # not say which of the two tokens it was (WIRE_PROTOCOL.md: uniform).
+            RuntimeError("State token signature verification failed"),
             status_code=HTTPStatus.BAD_REQUEST,
         ) from exc
     plaintext = _unpack_plaintext(sealed_plaintext)
